@@ -387,6 +387,17 @@ def render(events):
             def sub(m):
                 a = args.pop(0)
                 spec = m.group(1) or ""
+                if a[0] == "float":
+                    # Rust's f64: Display prints an integral value without a fraction (2), Debug with one (2.0)
+                    try:
+                        x = float(a[1])
+                    except ValueError:
+                        raise Unknown("format argument")
+                    if spec not in ("", ":?") or x != x or abs(x) >= 1e15:
+                        raise Unknown("format spec %s of a float" % spec)
+                    if x == int(x):
+                        return str(int(x)) + (".0" if spec == ":?" else "")
+                    return repr(x)
                 if a[0] not in ("int", "char", "str"):
                     raise Unknown("format argument")
                 if spec == "":
